@@ -205,6 +205,13 @@ class ShapelyBoundary(BoundaryDomain):
             on_bound[i] = abs(distance) <= self.tol
         return on_bound.reshape(-1, 1)
 
+    def _compute_number_of_points(self, n, d, params):
+        # a density refers to the measure of the boundary, not to the volume of
+        # the domain
+        if d:
+            n = self.compute_n_from_density(d, params)
+        return n * self.len_of_params(params)
+
     def _get_volume(self, params=Points.empty(), device="cpu"):
         volume = self.domain.polygon.boundary.length
         return torch.tensor(volume, device=device).reshape(-1, 1)
@@ -212,14 +219,14 @@ class ShapelyBoundary(BoundaryDomain):
     def sample_random_uniform(
         self, n=None, d=None, params=Points.empty(), device="cpu"
     ):
-        n = self.domain._compute_number_of_points(n, d, params)
+        n = self._compute_number_of_points(n, d, params)
         line_points = torch.rand(n, device=device) * self.domain.polygon.boundary.length
         return self._transform_points_to_boundary(
             n, torch.sort(line_points).values, device
         )
 
     def sample_grid(self, n=None, d=None, params=Points.empty(), device="cpu"):
-        n = self.domain._compute_number_of_points(n, d, params)
+        n = self._compute_number_of_points(n, d, params)
         line_points = torch.linspace(
             0, self.domain.polygon.boundary.length, n + 1, device=device
         )[:-1]
